@@ -68,9 +68,9 @@ def gen_case(rng, k):
     p = [int(rng.integers(c + 1, shape[0] - c)), int(rng.integers(c + 1, shape[1] - c))]
     q = {"pattern": pat, "shape": shape, "p": p, "amp": float(rng.uniform(0.5, 8)), "bg": float(rng.integers(0, 200)),
          "seed": int(rng.integers(1 << 30)), "upsample": sorted({int(rng.integers(2, 51)), int(rng.integers(2, 51)), 20})}
-    if k % 3 == 1:     # earlier use for a frame whose rfft2 spectrum has the same shape (width 2n <-> 2n+1)
+    if (k // 6) % 3 == 1:     # (decorrelated from the pattern kind, which cycles with k % 6) earlier use for a frame whose rfft2 spectrum has the same shape (width 2n <-> 2n+1)
         q["prior_shapes"] = [[shape[0], shape[1] + 1 if shape[1] % 2 == 0 else shape[1] - 1]]
-    elif k % 3 == 2:   # earlier use for a larger frame
+    elif (k // 6) % 3 == 2:   # earlier use for a larger frame
         q["prior_shapes"] = [[shape[0] + 2 * int(rng.integers(1, 5)) + int(rng.integers(0, 2)),
                               shape[1] + 2 * int(rng.integers(1, 5)) + int(rng.integers(0, 2))]]
     return q
